@@ -61,7 +61,7 @@ CHECKS = {
             "40 ids x list/tuple populations of mixed values (n in 1..64) x 1.2k (11k) weight vectors and their cumulative forms, boundary positions through the MD5 seam, extreme totals (1e-300 .. 2e307), weights that are ints beyond 2^53 / Fractions / bools, all malformed combinations incl. every empty-sequence case, 6 host environments, the id-less branch with every boundary answer of random.random().",
             "Seams: hashlib.md5 as seen by the binning module and random.random (effectiveness measured).", "3/C16"),
     "C17": (MC, "stateless exploration of thread interleavings of the real code under a controlled scheduler (sys.monitoring LINE/INSTRUCTION points + attribute hooks), preemption-bounded DFS, linearizability by brute force",
-            "Harnesses H1 (2-3 threads construct different texts, two with the same experiment name, sources with block comments), H2 (recompile vs calls), H3 (two recompiles of the same text then calls), H4 (recompiles of different texts); all interleavings of shared-evaluator accesses, and preemption bound 2 (thorough 3) at line points of the evaluator / wrapper modules; H5 (concurrent evaluation), H6_W (W sources compiled first: bounded caches), H7 (a recompile refused after parsing vs. a recompile in another thread; deadlock detection), H1n (two sources nested deeper than anything compiled before, line points in the generator and the models), H5w (two evaluators with different weight vectors evaluated at once), timed lock waits whose expiry is an explored environment answer, every single preemption between two bytecodes of the evaluator modules, function-entry points inside the vendored lexer / parser always on, sequential epilogue after H4; thread-confinement of lexer/parser/codegen instances and module/class-level state are measured and break into an escalated exploration (line or strided function-entry points inside SLY, every schedule in a forked child of a pristine image); real Lock/RLock objects are replaced by scheduler-aware ones; the explorer is calibrated against TLC (thorough).",
+            "Harnesses H1 (2-3 threads construct different texts, two with the same experiment name, sources with block comments), H2 (recompile vs calls), H3 (two recompiles of the same text then calls), H4 (recompiles of different texts); all interleavings of shared-evaluator accesses, and preemption bound 2 (thorough 3) at line points of the evaluator / wrapper modules; H5 (concurrent evaluation), H6_W (W sources compiled first: bounded caches), H7 (a recompile refused after parsing vs. a recompile in another thread; deadlock detection), H1n (two sources nested deeper than anything compiled before, line points in the generator and the models), H5w (two evaluators with different weight vectors evaluated at once), timed lock waits whose expiry is an explored environment answer, every single preemption between two bytecodes of the evaluator modules, function-entry points and every single preemption between two lines inside the vendored lexer / parser / models / generator always on (tiny texts), sequential epilogue after H4; thread-confinement of lexer/parser/codegen instances and module/class-level state are measured and break into an escalated exploration (line or strided function-entry points inside SLY, every schedule in a forked child of a pristine image); real Lock/RLock objects are replaced by scheduler-aware ones; the explorer is calibrated against TLC (thorough).",
             "GIL: one bytecode is atomic; C-level state invisible. Not covered: >3 threads, free-threaded builds.", "3/C17"),
     "C18": ("exploration", "exhaustive sweep of a finite numeric grid with independent textbook formulas and statistics.NormalDist as oracle",
             "n (38 values to 1e9) x p (41) x confidence (25, 1e-6..1-1e-12) x both methods; alpha on a dyadic grid of 2^15 (2^19) points plus the decades to 1e-300: non-integer n, every call spelling x a value set shared by p and confidence executed forwards and backwards in one process, two threads at different confidence levels under the controlled scheduler: lower<=upper, textbook equality, monotone in n and confidence, z symmetric and never below the true quantile, unknown method refused.",
